@@ -857,8 +857,7 @@ Proof.
       pose proof (merge_rules_obad groups []) as Hm.
       destruct (merge_rules groups []) as [rules|x|w|]; cbn in Hm; try discriminate;
         try (split; [reflexivity|exact Hi1]).
-      destruct (negb (forallb (fun kv => condition_ok sem (snd kv)) rules)); [split; [reflexivity|exact Hi1]|].
-      apply Hfc. exact Hi1.
+      cbv zeta. apply Hfc. exact Hi1.
 Qed.
 
 Section WalkTot.
